@@ -763,7 +763,9 @@ def fv_boundaries(font):
             cs = rec.ConditionSet
             for c in (cs.ConditionTable if cs is not None else []):
                 if c.Format == 1:
-                    out.setdefault(axes[c.AxisIndex].axisTag, set()).update((c.FilterRangeMinValue, c.FilterRangeMaxValue))
+                    # a range that starts at -1 or ends at +1 reaches the end of the axis: that end is not
+                    # a boundary at which either side would be legitimate
+                    out.setdefault(axes[c.AxisIndex].axisTag, set()).update(v for v in (c.FilterRangeMinValue, c.FilterRangeMaxValue) if -1.0 < v < 1.0)
     return {k: sorted(v) for k, v in out.items()}
 
 
